@@ -1,12 +1,18 @@
 #!/bin/sh
-# extraction + native compilation of the model driver
+# usage: build.sh <name> <outdir>
+# Extraction (coq/extract/<name>/Extract.v -> rsmodel.ml) and native compilation of the driver
+# coq/extract/common.ml + coq/extract/<name>/*.ml (main.ml last) into <outdir>/rsmodel_<name>.
 set -e
-cd "$(dirname "$0")"
-OUT=${1:-/verif/.build/model}
-mkdir -p "$OUT"
-coqc -Q ../theories RS -Q ../gen RSGen Extract.v >/dev/null 2>"$OUT/extract.log" || { cat "$OUT/extract.log"; exit 1; }
-cp rsmodel.ml rsmodel.mli driver/*.ml "$OUT/"
-rm -f rsmodel.ml rsmodel.mli
-cd "$OUT"
-ocamlfind ocamlopt -O3 -w -a -package str rsmodel.mli rsmodel.ml common.ml cmd_*.ml main.ml -o rsmodel 2>"$OUT/ocaml.log" \
-  || ocamlfind ocamlopt -w -a rsmodel.mli rsmodel.ml common.ml cmd_*.ml main.ml -o rsmodel
+HERE="$(cd "$(dirname "$0")" && pwd)"
+NAME="$1"
+OUT="${2:-/verif/.build/model}"
+W="$OUT/$NAME.build"
+rm -rf "$W"; mkdir -p "$W"
+cp "$HERE/$NAME/Extract.v" "$W/Extract.v"
+( cd "$W" && coqc -Q "$HERE/../theories" RS -Q "$HERE/../gen" RSGen -noglob Extract.v >extract.log 2>&1 ) || { cat "$W/extract.log"; exit 1; }
+cp "$HERE/common.ml" "$W/"
+for f in "$HERE/$NAME"/*.ml; do cp "$f" "$W/"; done
+cd "$W"
+MLS="$(ls *.ml | grep -v '^rsmodel.ml$' | grep -v '^common.ml$' | grep -v '^main.ml$' | tr '\n' ' ')"
+ocamlfind ocamlopt -O3 -w -a rsmodel.mli rsmodel.ml common.ml $MLS main.ml -o "$OUT/rsmodel_$NAME" 2>ocaml.log \
+  || ocamlfind ocamlopt -w -a rsmodel.mli rsmodel.ml common.ml $MLS main.ml -o "$OUT/rsmodel_$NAME"
